@@ -20,7 +20,7 @@
        (sent) link command / header packet (or after entering U0): never earlier, always then.   *)
 From Coq Require Import NArith List Bool. Import ListNotations.
 From LunaLib Require Import Netlist Machine.
-From LunaModel Require IdleHs IdleHs_proofs LinkTimers LinkTimers_proofs.
+From LunaModel Require Import IdleHs IdleHs_proofs LinkTimers LinkTimers_proofs.
 Open Scope N_scope.
 
 Module I := IdleHs. Module IP := IdleHs_proofs. Module T := LinkTimers. Module TP := LinkTimers_proofs.
